@@ -1,12 +1,126 @@
-(* C11 — theorems (statements in full; proofs in Proofs/C11_*.v). *)
+(* C11 — theorems (statements in full; proofs in Proofs/C11_*.v).
+   Models: IO/Retry.v (_retry, ElapsedTime.recompute_timeout), IO/Budget.v (endpoint receive loop, lock_with_timeout,
+   client recv/send, client iterator), IO/SendMsg.v.  Time is in integer ticks; `None` is math.inf.
+   A `wait` records the wait requested from the selector (w_req) and what the selector answered (w_ready, w_el =
+   how long the wait really took).  All theorems are for every callback / socket script, every selector script and
+   every fuel (a truncated run is a prefix of the real one). *)
 From Coq Require Import ZArith List Bool Lia.
-From EN Require Import Lib.Bytes IO.Retry Proofs.C11_retry.
+From EN Require Import Lib.Bytes IO.Retry IO.SendAll IO.SendMsg IO.Budget Proofs.C11_retry Proofs.C11_budget.
 Import ListNotations.
 Open Scope Z_scope.
 
-(* _retry with timeout 0 never calls the selector, whatever the callback does. *)
+(* budget_ok t ws (Proofs/C11_retry.v), restated here so the theorems below can be read on their own:
+   before every wait, the time left (t minus the time all previous waits took) is positive and the wait requested
+   is finite, positive and not larger than the time left. *)
+Fixpoint within_budget (t : Z) (ws : list wait) : Prop :=
+  match ws with
+  | [] => True
+  | w :: ws' => 0 < t /\ (exists r, w_req w = Some r /\ 0 < r <= t) /\ within_budget (t - w_el w) ws'
+  end.
+
+(* retry_budget: _retry(callback, T) with any positive (or infinite) retry_interval. *)
+Theorem retry_budget :
+  forall (St R : Type) (cb : St -> cbres R * St * Z) (fuel : nat) (ri : tmo) (t : Z) (st : St) (sels : list selans),
+    (match ri with None => True | Some x => 0 < x end) ->
+    within_budget t (rr_waits (retry cb fuel ri (Some t) st sels)).
+Proof. exact retry_budget_proof. Qed.
+Print Assumptions retry_budget.
+
+(* total_wait_le_T: if no wait lasts longer than requested, the waits of any budgeted trace sum up to at most T;
+   in general everything but the last wait fits strictly inside T (only the last wait can overshoot). *)
+Theorem total_wait_le_T :
+  forall (ws : list wait) (t : Z),
+    0 <= t -> within_budget t ws ->
+    Forall (fun w => exists r, w_req w = Some r /\ w_el w <= r) ws ->
+    sum_wait_el ws <= t.
+Proof. exact budget_total. Qed.
+Print Assumptions total_wait_le_T.
+
+Theorem total_wait_overshoot_last_only :
+  forall (ws0 : list wait) (wl : wait) (t : Z),
+    within_budget t (ws0 ++ [wl]) -> sum_wait_el ws0 < t.
+Proof. exact budget_all_but_last. Qed.
+Print Assumptions total_wait_overshoot_last_only.
+
+(* zero_timeout_never_waits: on every path. *)
 Theorem zero_timeout_never_waits_retry :
   forall (St R : Type) (cb : St -> cbres R * St * Z) (fuel : nat) (ri : tmo) (st : St) (sels : list selans),
     rr_waits (retry cb fuel ri (Some 0) st sels) = [].
 Proof. exact retry_zero_no_wait. Qed.
 Print Assumptions zero_timeout_never_waits_retry.
+
+Theorem zero_timeout_never_waits_recv :
+  forall (F : nat) (ri : tmo) (N bufsize fuel : nat) (l : lockans) (buf : bytes) (eof : bool)
+         (s : list recvans) (sels : list selans),
+    cl_lockwaits (client_recv F ri N bufsize fuel (Some 0) l buf eof s sels) = []
+    /\ rv_waits (cl_rv (client_recv F ri N bufsize fuel (Some 0) l buf eof s sels)) = []
+    /\ rv_waits (receive F ri N bufsize fuel (Some 0) buf eof s sels) = [].
+Proof.
+  intros. destruct (client_recv_zero F ri N bufsize fuel l buf eof s sels) as [A B].
+  split; [exact A|]. split; [exact B|]. apply receive_zero.
+Qed.
+Print Assumptions zero_timeout_never_waits_recv.
+
+Theorem zero_timeout_never_waits_sendmsg :
+  forall (F : nat) (ri : tmo) (iov fuel : nat) (bufs : list bytes) (s : sock) (sels : list selans),
+    sr_waits (sendmsg_loop F ri iov fuel bufs (Some 0) s sels) = [].
+Proof. exact sendmsg_loop_zero. Qed.
+Print Assumptions zero_timeout_never_waits_sendmsg.
+
+(* timeout_only_if_exhausted: _retry raises TimeoutError only when the waits have used up T, provided the selector
+   reports "not ready" only after the full requested wait; with an infinite timeout it never raises it. *)
+Theorem timeout_only_if_exhausted :
+  forall (St R : Type) (cb : St -> cbres R * St * Z) (fuel : nat) (ri : tmo) (t : Z) (st : St) (sels : list selans),
+    rr_out (retry cb fuel ri (Some t) st sels) = RTimeout ->
+    Forall (fun w => w_ready w = false -> exists r, w_req w = Some r /\ r <= w_el w)
+           (rr_waits (retry cb fuel ri (Some t) st sels)) ->
+    t <= sum_wait_el (rr_waits (retry cb fuel ri (Some t) st sels)).
+Proof. exact retry_timeout_exhausted_proof. Qed.
+Print Assumptions timeout_only_if_exhausted.
+
+Theorem infinite_timeout_never_times_out :
+  forall (St R : Type) (cb : St -> cbres R * St * Z) (fuel : nat) (ri : tmo) (st : St) (sels : list selans),
+    rr_out (retry cb fuel ri None st sels) <> RTimeout.
+Proof. intros. unfold retry. simpl. apply retry_loop_inf_no_timeout. Qed.
+Print Assumptions infinite_timeout_never_times_out.
+
+(* op_budget, recv_packet at endpoint level: over any number of partial reads the waits stay inside T
+   (call costs of the scripted socket are assumed non-negative: time does not run backwards). *)
+Theorem op_budget_recv_packet :
+  forall (F : nat) (ri : tmo) (N bufsize fuel : nat) (t : Z) (buf : bytes) (eof : bool)
+         (s : list recvans) (sels : list selans),
+    (match ri with None => True | Some x => 0 < x end) ->
+    Forall (fun a => 0 <= match a with RData _ c => c | RBlock _ c => c | RErr c => c end) s ->
+    within_budget t (rv_waits (receive F ri N bufsize fuel (Some t) buf eof s sels)).
+Proof. exact receive_budget. Qed.
+Print Assumptions op_budget_recv_packet.
+
+(* op_budget, TCPNetworkClient.recv_packet: the lock wait (if any) followed by the selector waits stays inside T. *)
+Theorem op_budget_client_recv_packet :
+  forall (F : nat) (ri : tmo) (N bufsize fuel : nat) (t : Z) (l : lockans) (buf : bytes) (eof : bool)
+         (s : list recvans) (sels : list selans),
+    (match ri with None => True | Some x => 0 < x end) ->
+    Forall (fun a => 0 <= match a with RData _ c => c | RBlock _ c => c | RErr c => c end) s ->
+    let k := lock_with_timeout (Some t) l in
+    within_budget t
+      (map (fun req => {| w_write := false; w_req := req; w_ready := true; w_el := lk_dt k |}) (lk_waits k)
+       ++ rv_waits (cl_rv (client_recv F ri N bufsize fuel (Some t) l buf eof s sels))).
+Proof. exact client_recv_budget. Qed.
+Print Assumptions op_budget_client_recv_packet.
+
+(* ---- non-vacuity: a drip-fed 3-byte packet, retry interval 2, T = 8: four waits, all inside the budget *)
+Example drip_feed :
+  let s := [RBlock false 0; RData [1%N] 0; RBlock false 0; RData [2%N] 0; RBlock false 0; RBlock false 0; RData [3%N] 0] in
+  let sels := [{| sa_ready := true; sa_el := 1 |}; {| sa_ready := true; sa_el := 2 |};
+               {| sa_ready := false; sa_el := 2 |}; {| sa_ready := true; sa_el := 1 |}] in
+  let r := receive 9 (Some 2) 3 4 9 (Some 8) [] false s sels in
+  rv_out r = RvPkt [1%N; 2%N; 3%N]
+  /\ map w_req (rv_waits r) = [Some 2; Some 2; Some 2; Some 2] /\ rv_dt r = 6.
+Proof. vm_compute. repeat split. Qed.
+
+Example drip_feed_times_out :
+  let s := [RBlock false 0; RData [1%N] 0; RBlock false 0] in
+  let sels := [{| sa_ready := true; sa_el := 2 |}; {| sa_ready := false; sa_el := 1 |}] in
+  let r := receive 9 None 3 4 9 (Some 3) [] false s sels in
+  rv_out r = RvExc E_TIMEOUT /\ map w_req (rv_waits r) = [Some 3; Some 1] /\ rv_dt r = 3.
+Proof. vm_compute. repeat split. Qed.
